@@ -63,7 +63,7 @@ def counterfactual_history(kind, sig, steps):
     raise vlib.ToolError(f"unknown counterfactual {kind}")
 
 
-def run(prop, tier, replay, make_plan, level="model_checking", panic_props=("C01",), explanation="", also_props=()):
+def run(prop, tier, replay, make_plan, level="model_checking", panic_props=("C01",), explanation="", also_props=(), design=()):
     v = vlib.Verdict(prop, tier, level)
     ths = theories.prepare()
     rnd = random.Random(vlib.seed())
@@ -76,6 +76,20 @@ def run(prop, tier, replay, make_plan, level="model_checking", panic_props=("C01
     else:
         plan = make_plan(ths, tier, rnd)
     kfs = vlib.known_findings()
+    design_info = {}
+    if replay is None:
+        # design level: EqlogEval instantiated with corpus theories (refinement of the contract)
+        for theory, kw in design:
+            kw = dict(kw)
+            if tier != "thorough":
+                kw.pop("thorough_only", None)
+            elif "thorough_only" in kw:
+                kw.update(kw.pop("thorough_only"))
+            sig, stages = ths[theory]
+            r = mcgen.eval_model_check(theory, sig, stages, module_path(theory), f"{prop.lower()}-eval-{theory}", **kw)
+            plan.gen_states += r["distinct"]
+            plan.gen_transitions += r["generated"]
+            design_info[theory] = {"EqlogEval_states": r["distinct"], "bounds": {k: x for k, x in kw.items() if k != "workers"}}
     if replay is None:
         # the pinned witnesses of recorded and repaired findings of this property are always run
         wfam = 10 ** 6
@@ -182,6 +196,7 @@ def run(prop, tier, replay, make_plan, level="model_checking", panic_props=("C01
         "monitor_stats": stats_all,
         "theories": sorted(plan.by_theory),
         "generator_states": plan.gen_states,
+        "design_runs": design_info,
         "notes": plan.notes,
         "exhaustive": False,
         "explanation": explanation,
